@@ -8,10 +8,15 @@ import (
 	"io"
 	"math/rand"
 	"net"
+	"os"
+	"regexp"
+	"runtime/debug"
+	"runtime/pprof"
 	"sort"
 	"strconv"
 	"strings"
 	"sync"
+	"sync/atomic"
 	"syscall"
 	"time"
 
@@ -45,6 +50,8 @@ type world struct {
 	locks   map[string]*sync.Mutex
 	sig     []string
 	closed  bool
+
+	sawDeadAddr atomic.Bool
 }
 
 const harnessClient = 1000
@@ -156,6 +163,12 @@ func (w *world) close() {
 	// cancelling the context alone does not end Service.Run (it sits in HandleListener): close the service itself first
 	_ = w.srv.Svc.Close()
 	w.srv.Close()
+	if os.Getenv("C09_DEBUG_CLOSE") != "" {
+		if !h.Eventually(4*time.Second, func() bool { b, _ := isBound("tcp", w.bind); return !b }) && debugOnce.CompareAndSwap(false, true) {
+			fmt.Fprintf(os.Stderr, "world of case %d (bind %d) not closed\n", w.c.Idx, w.bind)
+			_ = pprof.Lookup("goroutine").WriteTo(os.Stderr, 2)
+		}
+	}
 	giveBlock(w.block)
 }
 
@@ -174,13 +187,13 @@ func (w *world) taint(why string) {
 	w.c.Ev("tainted", "why", why)
 }
 
-// lock serialises operations on the same proxy name / the same group (see Assumptions); keys are taken in sorted order.
+// lock serialises operations on the same proxy name (see Assumptions); keys are taken in sorted order.
 func (w *world) lock(keys ...string) (unlock func()) {
 	sort.Strings(keys)
 	var held []*sync.Mutex
 	last := ""
 	for _, k := range keys {
-		if k == last || k == "g:" {
+		if k == last {
 			continue
 		}
 		last = k
@@ -264,6 +277,8 @@ func (w *world) session(s int) *h.Peer {
 	return p
 }
 
+var listenErrRe = regexp.MustCompile(`listen (?:tcp|udp) 127\.0\.0\.1:(\d+): bind: address already in use`)
+
 func errClass(e string) string {
 	switch {
 	case e == "":
@@ -294,7 +309,7 @@ func (w *world) reg(s int, name, proto string, port int, group, key string) opOu
 	if p == nil {
 		return opOut{Unk: true}
 	}
-	unlock := w.lock("n:"+name, "g:"+group)
+	unlock := w.lock("n:" + name)
 	defer unlock()
 	in := opIn{Kind: "reg", Sess: s, Name: name, Proto: proto, Port: port, Group: group, GroupKey: key}
 	m := &msg.NewProxy{ProxyName: name, ProxyType: proto, RemotePort: port, Group: group, GroupKey: key}
@@ -315,6 +330,15 @@ func (w *world) reg(s int, name, proto string, port int, group, key string) opOu
 	w.sig = append(w.sig, proto+"/"+portClass(w, port)+"/"+errClass(resp.Error)+map[bool]string{true: "/g", false: ""}[group != ""])
 	w.mu.Unlock()
 	if !out.OK {
+		if m := listenErrRe.FindStringSubmatch(resp.Error); m != nil && proto != "stcp" {
+			// refused because the listen after the acquisition failed: the port named in the error was held in
+			// between (two steps for the reference allocator: acquisition, then undo justified by a foreign holder)
+			lp, _ := strconv.Atoi(m[1])
+			in.Kind = "acq"
+			w.record(s, in, opOut{OK: true, Port: lp}, call, ret)
+			w.record(s, opIn{Kind: "unacq", Sess: s, Name: name, Proto: proto}, opOut{OK: true}, call, ret)
+			return out
+		}
 		w.record(s, in, out, call, ret)
 		return out
 	}
@@ -338,7 +362,10 @@ func (w *world) reg(s int, name, proto string, port int, group, key string) opOu
 		return opOut{Unk: true}
 	}
 	out.Port = rp
+	// an acknowledged registration is two steps for the reference allocator: acquisition (accounting) and listen
+	in.Kind = "acq"
 	w.record(s, in, out, call, ret)
+	w.record(s, opIn{Kind: "bind", Sess: s, Name: name, Proto: proto}, opOut{OK: true}, call, ret)
 	w.mu.Lock()
 	w.live[s][name] = pinfo{Sess: s, Proto: proto, Port: rp, Group: group}
 	w.mu.Unlock()
@@ -358,12 +385,13 @@ func (w *world) reg(s int, name, proto string, port int, group, key string) opOu
 		case o.Unk:
 			run.Count("probes_uninformative", 1)
 		case o.Owner == "none":
+			w.sawDeadAddr.Store(true)
 			w.c.Violation("remote-addr-not-accepting-"+kind, "proxy %s (%s, requested port %d) was told remote address %q but nothing accepts connections there", name, kind, port, resp.RemoteAddr)
 		case group == "" && o.Owner != fmt.Sprintf("S%d|%s", s, name):
 			w.c.Violation("remote-addr-served-by-another-owner-"+kind, "proxy %s of session %d was told remote address %q but connections there are answered by %q", name, s, resp.RemoteAddr, o.Owner)
 		}
 		run.Count("probes", 1)
-	} else if !h.OwnUDPPorts()[rp] {
+	} else if b, ok := isBound("udp", rp); ok && !b {
 		w.c.Violation("remote-addr-not-bound-udp", "udp proxy %s was told remote address %q but no udp socket of the server is bound there", name, resp.RemoteAddr)
 	}
 	return out
@@ -391,10 +419,7 @@ func (w *world) closeP(s int, name string) {
 	if p == nil {
 		return
 	}
-	w.mu.Lock()
-	g := w.live[s][name].Group
-	w.mu.Unlock()
-	unlock := w.lock("n:"+name, "g:"+g)
+	unlock := w.lock("n:" + name)
 	defer unlock()
 	call := h.Now()
 	_ = p.CloseProxy(name)
@@ -417,8 +442,8 @@ func (w *world) end(s int) {
 	w.mu.Lock()
 	p := w.peers[s]
 	var keys []string
-	for n, pi := range w.live[s] {
-		keys = append(keys, "n:"+n, "g:"+pi.Group)
+	for n := range w.live[s] {
+		keys = append(keys, "n:"+n)
 	}
 	w.mu.Unlock()
 	if p == nil {
@@ -569,6 +594,7 @@ func pick[T any](rng *rand.Rand, l []T) T { return l[rng.Intn(len(l))] }
 // port blocks: the property's private range is cut once into blocks of 9 ports; a block belongs to one live world at a time
 
 var blockPool chan []int
+var debugOnce atomic.Bool
 
 func initBlocks() {
 	const n = 108
@@ -617,8 +643,54 @@ func takeBlock() []int {
 			return b
 		}
 		run.Count("port_block_still_busy", 1)
+		if v, ok := blockLog.Load(b[0]); ok {
+			fmt.Fprintf(os.Stderr, "busy block %d at %v, last: %s\n", b[0], time.Now().Format("15:04:05.000"), v)
+		}
+		for i, p := range b {
+			if tb, _ := isBound("tcp", p); tb {
+				fmt.Fprintf(os.Stderr, "busy block: tcp port %d (index %d) still bound\n", p, i)
+			}
+			if ub, _ := isBound("udp", p); ub {
+				fmt.Fprintf(os.Stderr, "busy block: udp port %d (index %d) still bound\n", p, i)
+			}
+		}
 		blockPool <- b
 	}
 }
 
-func giveBlock(b []int) { blockPool <- b }
+var blockLog sync.Map
+
+func giveBlock(b []int) {
+	n := 0
+	for _, p := range b {
+		if tb, _ := isBound("tcp", p); tb {
+			n++
+		}
+	}
+	blockLog.Store(b[0], fmt.Sprintf("given back at %v with %d tcp ports bound\n%s", time.Now().Format("15:04:05.000"), n, debug.Stack()))
+	blockPool <- b
+}
+
+// isBound asks the operating system whether something holds 127.0.0.1:port (by trying to bind it). ok=false: no answer.
+func isBound(proto string, port int) (bound bool, ok bool) {
+	var err error
+	if proto == "udp" {
+		var u *net.UDPConn
+		u, err = net.ListenUDP("udp", &net.UDPAddr{IP: net.IPv4(127, 0, 0, 1), Port: port})
+		if err == nil {
+			u.Close()
+			return false, true
+		}
+	} else {
+		var l net.Listener
+		l, err = net.Listen("tcp", fmt.Sprintf("127.0.0.1:%d", port))
+		if err == nil {
+			l.Close()
+			return false, true
+		}
+	}
+	if errors.Is(err, syscall.EADDRINUSE) {
+		return true, true
+	}
+	return false, false
+}
